@@ -123,6 +123,11 @@ def calls (y : Sys) : List Call → Sys
   | [] => y
   | c :: cs => calls (call y c).1 cs
 
+/-- a `ServerHandle` call made after `run` has returned: the receiving end of the command channel is gone, `send` fails
+and hands the command back, and the handle drops it on the spot (`let _ = self.cmd_tx.send(..)`) — the ack sender inside
+it included, so the future the call returns resolves at once.  The events of such a call: -/
+def lateCall (y : Sys) (c : Call) : List Ev := droppedAcks ((call y c).1.cmds.drop y.cmds.length)
+
 /-- a server with workers `0..n-1`, after the calls `cs` were made, run to quiescence -/
 def serve (wakeFirst : Bool) (n : Nat) (cs : List Call) : St :=
   runLoop { workers := List.range n, wakeFirst := wakeFirst } (calls {} cs).cmds
